@@ -49,6 +49,8 @@ class Verifier(Calls):
         self.st = State()
         self.exit_kinds = {}
         self.assumed_reads = set()
+        from .symex import isinstance_any
+        self.spec_fns["leaf_isinstance_any"] = isinstance_any
 
     # ---------------------------------------------------------- symbolic inputs
     def sym_value(self, name, tag):
@@ -173,6 +175,7 @@ class Verifier(Calls):
         self.spec_envs = []
         self.spec_mode = 0
         self.assumed_reads = set()
+        self.fresh_objs = {}
         self.closures = {}
         self.global_cache = {}
         self.assume(self.comp("$alloc") >= 0)
@@ -238,6 +241,9 @@ class Verifier(Calls):
                 for k, e in enumerate(c.ensures):
                     self.oblige("post", self.spec_bool(parse_expr(e), env), fake, c.labels.get(k, str(k)),
                                 extra=dict(path=list(self.path_notes), exit="normal"))
+                if c.returns is not None:
+                    self.oblige("post", self.conforms(res, c.returns), fake, "returns",
+                                extra=dict(path=list(self.path_notes), exit="normal"))
             else:
                 env["exc"] = outcome[1]
                 if c.exsures is None:
@@ -249,6 +255,41 @@ class Verifier(Calls):
             self.frame_obligations(c, env, pre_heap, fake)
         except PathEnd:
             self.exit_kinds["cut"] += 1
+
+    def conforms(self, v, tag):
+        """the returned value has the declared result type"""
+        kind, arg = parse_tag(tag)
+        if isinstance(v, TupV):
+            return z3.BoolVal(kind in ("tuple", "any", "seq"))
+        if not isinstance(v, SV):
+            return z3.BoolVal(kind in ("any", None))
+        t = v.term
+        containers = [self.cids.cid(k) for k in ("list", "set", "frozenset", "dict")]
+        if kind in ("any", "val", None):
+            return z3.BoolVal(True)
+        if kind == "none":
+            return t == Val.none
+        if kind == "bool":
+            return Val.is_boolv(t)
+        if kind == "int":
+            return Val.is_intv(t)
+        if kind == "str":
+            return Val.is_strv(t)
+        if kind == "bytes":
+            return Val.is_bytesv(t)
+        if kind in ("tuple", "seq", "iter"):
+            return Val.is_tup(t)
+        if kind == "opt":
+            return z3.Or(t == Val.none, self.conforms(v, arg))
+        r = Val.r(t)
+        if kind in ("list", "set", "frozenset", "dict"):
+            return z3.And(Val.is_ref(t), so.typeof(r) == self.cids.cid(kind))
+        if kind in self.reg.shapes:
+            return z3.And(Val.is_ref(t), *[so.typeof(r) != cid for cid in containers])
+        ci = self.repo.find_class(kind)
+        if ci is not None:
+            return z3.And(Val.is_ref(t), so.subclass(so.typeof(r), self.class_id(ci)))
+        return z3.BoolVal(True)
 
     def frame_obligations(self, c, env, pre_heap, node):
         listed = {}       # comp -> list of ref terms | None (= whole)
